@@ -38,8 +38,8 @@ Definition getutf8 (s : bytes) : option (N * nat) :=
     if negb (is_cont a3) then None else
     let v := N.lor (N.shiftl (N.lor (N.shiftl (N.lor (N.shiftl (N.land c 7) 6) (N.land a1 63)) 6)
                                     (N.land a2 63)) 6) (N.land a3 63) in
-    (* libyang: (c < 0x1000) || (c > 0x10ffff) — lower bound as coded (0x1000, not 0x10000) *)
-    if (v <? 4096) || (1114111 <? v) then None
+    (* (c < 0x10000) || (c > 0x10ffff)   (the lower bound was 0x1000 before /repo commit 5a70337: overlong forms) *)
+    if (v <? 65536) || (1114111 <? v) then None
     else Some (v, 4%nat)
   else None.
 
@@ -90,7 +90,7 @@ Definition checkutf8 (s : bytes) : option nat :=
   else if (N.land c 240 =? 224) && (Nat.ltb 2 n) then
     let i := firstn 3 s in
     if negb (lex_lt i [237;160;128]) && negb (lex_gt i [237;191;191]) then None
-    else if lex_lt i [224;160;128] || lex_gt i [239;191;191] ||
+    else if lex_lt i [224;160;128] || lex_gt i [239;191;189] ||      (* EF BF BD since /repo commit 2a3b08d *)
             negb (and_eq i [240;192;192] [224;128;128]) then None
     else Some 3%nat
   else if (N.land c 248 =? 240) && (Nat.ltb 3 n) then
